@@ -81,6 +81,9 @@ type Case struct {
 	Edits      []Edit `json:"edits"`
 	Fuzz       bool   `json:"fuzz,omitempty"`       // fuzzing: the plugin signs exactly RawPayload
 	RawPayload []byte `json:"rawPayload,omitempty"` // payload bytes of a fuzz case
+	// Warm: the same PluginSigner instance first signs another artifact with the plugin answering
+	// honestly; nothing of that call may influence the judged one
+	Warm bool `json:"warm,omitempty"`
 }
 
 func (c *Case) mediaType() string {
@@ -208,6 +211,15 @@ func run(c *Case) (*result, string) {
 	r := &result{pl: pl}
 	opts := notation.SignerSignOptions{SignatureMediaType: c.mediaType(), ExpiryDuration: time.Duration(c.ExpirySec) * time.Second}
 	ctx := context.Background()
+	if c.Warm {
+		hc := *c
+		hc.Edits, hc.Fuzz, hc.RawPayload = nil, false, nil
+		pl.c = &hc
+		warm := ocispec.Descriptor{MediaType: "application/vnd.oci.image.manifest.v1+json", Digest: digest.Digest(ownDigest("sha256", []byte("c18 warm-up artifact"))), Size: 77,
+			Annotations: map[string]string{"warm": "up"}}
+		protect(func() ([]byte, *signature.SignerInfo, error) { return ps.Sign(ctx, warm, opts) })
+		*pl = *newScripted(c) // same plugin object (the signer keeps its pointer), fresh script and facts
+	}
 	switch {
 	case c.Target == "oci":
 		r.want = ocispec.Descriptor{MediaType: c.MediaType, Digest: digest.Digest(ownDigest(c.DigestAlg, c.Content)), Size: c.Size, Annotations: c.annMap()}
@@ -405,6 +417,9 @@ func classesOf(c *Case, r *result) []string {
 	if len(c.Edits) == 0 && !c.Fuzz {
 		cl = append(cl, "honest")
 	}
+	if c.Warm {
+		cl = append(cl, "reused-signer")
+	}
 	if c.Fuzz {
 		cl = append(cl, "fuzz-payload")
 	}
@@ -526,6 +541,7 @@ func genCase(rt *rapid.T) Case {
 		}
 		c.Edits = append(c.Edits, Edit{d.name, rapid.IntRange(0, 63).Draw(rt, "variant")})
 	}
+	c.Warm = rapid.IntRange(0, 3).Draw(rt, "warmSameSigner") == 0
 	return c
 }
 
